@@ -12,52 +12,105 @@ from . import semantics
 TSEYTIN = 'cirbo.sat.cnf.tseytin'
 
 
+class DispatchTable(dict):
+    """{gate type name: (module, display name, value node, key node)} plus, per type, the callable the table holds -- obtained by
+    *evaluating* the table expression, so closures, partial applications, callable records and spread sub-tables all count -- and
+    the syntax node findings are attached to (the function definition when the value is a plain function)."""
+
+    def __init__(self):
+        super().__init__()
+        self.calls = {}
+        self.nodes = {}
+
+
+def evaluated_table(repo, mod, it, dict_node, what):
+    """Evaluate a dictionary expression whose keys are gate types; returns a DispatchTable or None when it is not such a table."""
+    from .interp import Env
+    from .tables import GateTypeVal
+    try:
+        val = it.eval(mod, dict_node, Env())
+    except (AnalysisError, InterpRaise):
+        return None
+    if not isinstance(val, dict) or not val or not all(isinstance(k, GateTypeVal) for k in val):
+        return None
+    explicit = {}
+    if isinstance(dict_node, ast.Dict):
+        for k, v in zip(dict_node.keys, dict_node.values):
+            if k is not None:
+                t = gate_const(repo, mod, k)
+                if t is not None:
+                    explicit[t] = (k, v)
+    table = DispatchTable()
+    for k, call in val.items():
+        t = k.var
+        knode, vnode = explicit.get(t, (dict_node, dict_node))
+        if isinstance(call, RepoFunc) and isinstance(call.node, (ast.FunctionDef, ast.Lambda)) and call.closure is None:
+            hmod, hname, node = call.mod, hmod_qualname(call), call.node
+        else:
+            hmod, node = mod, vnode
+            hname = getattr(call, '__name__', None) or norm(vnode)[:60]
+            if isinstance(call, RepoFunc):
+                hmod, node, hname = call.mod, call.node, hmod_qualname(call)
+        if not callable(call):
+            return None      # a table of something else (data records per gate type)
+        table[t] = (hmod, hname, vnode, knode)
+        table.calls[t] = call
+        table.nodes[t] = node
+    return table
+
+
+def hmod_qualname(call):
+    try:
+        return call.mod.qualname_of(call.node) if not isinstance(call.node, ast.FunctionDef) else next((q for q, n in call.mod.functions.items() if n is call.node), call.node.name)
+    except Exception:
+        return getattr(call.node, 'name', '<lambda>')
+
+
 def find_operations(ck: Checker):
-    """Locate the dispatch dict from gate types to clause templates (`_operations` on the pinned tree): returns (mod, fn, dict_node, {type: (handler_name, value_node)})."""
+    """Locate the dispatch table from gate types to clause templates (`_operations` on the pinned tree) by what it is: the one
+    dictionary expression -- local to the transformation or at module level, under whatever name, possibly assembled from
+    sub-tables -- that evaluates to a mapping from at least eight gate types to callables.  Returns (mod, fn, dict_node, table)."""
+    from .tables import Denotations, gate_overrides
     repo = ck.repo
     mod = repo.mod(TSEYTIN)
     fn = mod.func('tseytin_transformation')
-    # the dispatch table: the dictionary literal (local to the transformation or at module level, whatever it is called)
-    # whose keys are gate-type constants and whose values are functions of this module
+    it = Interp(repo, overrides=gate_overrides(Denotations(repo)))
     cands = []
+
     def consider(name, value):
-        if isinstance(value, ast.Dict) and len(value.keys) >= 8 and all(k is not None and gate_const(repo, mod, k) is not None for k in value.keys):
-            cands.append((name, value))
+        if isinstance(value, ast.Dict) and all(k is None or gate_const(repo, mod, k) is not None for k in value.keys):
+            table = evaluated_table(repo, mod, it, value, name)
+            if table is not None and len(table) >= 8:
+                cands.append((name, value, table))
     for node in ast.walk(fn):
         if isinstance(node, (ast.Assign, ast.AnnAssign)):
             tgt = node.targets[0] if isinstance(node, ast.Assign) else node.target
-            if isinstance(tgt, ast.Name):
+            if isinstance(tgt, ast.Name) and node.value is not None:
                 consider(tgt.id, node.value)
     for name, value in mod.assigns.items():
         consider(name, value)
-    if len(cands) != 1:
+    # (a table assembled from sub-tables shows up together with its parts: the largest one is the dispatch table)
+    cands.sort(key=lambda c: -len(c[2]))
+    if not cands or (len(cands) > 1 and len(cands[0][2]) == len(cands[1][2]) and cands[0][1] is not cands[1][1] and set(cands[0][2]) != set(cands[1][2])):
         raise AnalysisError(f'{mod.rel}: dispatch dictionary from gate types to clause templates not found ({len(cands)} candidates)')
-    dict_name, dict_node = cands[0]
+    dict_name, dict_node, table = cands[0]
     dict_node._dispatch_name = dict_name
-    table = {}
-    for k, v in zip(dict_node.keys, dict_node.values):
-        t = gate_const(repo, mod, k) if k is not None else None
-        if t is None:
-            raise AnalysisError(f'{mod.rel}: key `{norm(k)}` of _operations is not a GateType constant')
-        res = repo.resolve_expr(mod, v)
-        if not res or res[2] != 'function':
-            raise AnalysisError(f'{mod.rel}: handler `{norm(v)}` of _operations does not resolve to a function')
-        if t in table:
-            raise AnalysisError(f'{mod.rel}: duplicate key {t} in _operations')
-        table[t] = (res[0], res[1], v, k)
     return mod, fn, dict_node, table
 
 
-def clauses_of(repo, hmod, hname, n):
+def clauses_of(repo, hmod, hname, n, call=None):
     """Clause list the handler emits for operand literals 1..n and top literal n+1.
 
     Returns list of clauses or the string 'raise:<E>'.
     """
-    it = Interp(repo)
-    f = RepoFunc(it, hmod, hmod.func(hname))
+    if call is None:
+        it = Interp(repo)
+        call = RepoFunc(it, hmod, hmod.func(hname))
+    if hasattr(call, 'interp'):
+        call.interp.steps = 0
     cnf: list = []
     try:
-        f(cnf, n + 1, list(range(1, n + 1)))
+        call(cnf, n + 1, list(range(1, n + 1)))
     except InterpRaise as e:
         return f'raise:{e.exc_name}'
     for cl in cnf:
@@ -96,10 +149,14 @@ def check_template(name, n, cnf):
     return problems
 
 
-def clauses_for(repo, hmod, hname, lits, top):
+def clauses_for(repo, hmod, hname, lits, top, call=None):
     """Clause list for explicit operand literals (possibly repeated) and top literal."""
-    it = Interp(repo)
-    f = RepoFunc(it, hmod, hmod.func(hname))
+    if call is None:
+        it = Interp(repo)
+        call = RepoFunc(it, hmod, hmod.func(hname))
+    if hasattr(call, 'interp'):
+        call.interp.steps = 0
+    f = call
     cnf: list = []
     try:
         f(cnf, top, list(lits))
@@ -151,11 +208,11 @@ def check_repeats(ck, table, R):
     for t, (hmod, hname, vnode, knode) in table.items():
         if t == 'INPUT' or semantics.ORACLE[t][0] == semantics.ANY:
             continue
-        h = hmod.func(hname)
+        h = table.nodes[t] if hasattr(table, 'nodes') else hmod.func(hname)
         for n in [a for a in semantics.arities(t, 3) if a >= 2]:
             probs = []
             for pat in patterns(n):
-                cnf = clauses_for(repo, hmod, hname, pat, max(pat) + 1)
+                cnf = clauses_for(repo, hmod, hname, pat, max(pat) + 1, call=table.calls[t] if hasattr(table, 'calls') else None)
                 if isinstance(cnf, str):
                     probs.append(f'operands {pat}: handler raises {cnf}')
                     continue
